@@ -51,9 +51,16 @@ type PKI struct {
 	SignExpired       gmtls.Certificate
 	SignNotYet        gmtls.Certificate
 	SignWrongName     gmtls.Certificate
+	ECDSAIP           gmtls.Certificate // ECDSA leaf certified for ServerName and the addresses 127.0.0.1 and ::1
 	EncWrongName      gmtls.Certificate
 	SignNoKU, EncNoKU gmtls.Certificate // key usage unsuitable
 	Sign2, Enc2       gmtls.Certificate // a second genuine identity (other keys, same name)
+	// intermediate CAs and client certificates issued by them (chains of two)
+	SubCA        *gx509.Certificate // SM2 intermediate under CA
+	ClientSub    gmtls.Certificate  // SM2 client certificate under SubCA; Certificate = [leaf, SubCA]
+	StdSubCA     *gx509.Certificate // ECDSA intermediate under StdCA (parsed with the library's x509)
+	StdClientSub gmtls.Certificate  // ECDSA client certificate under StdSubCA; Certificate = [leaf, StdSubCA]
+	StdClientRSA gmtls.Certificate  // RSA client certificate under StdCA
 	// standard TLS identities
 	StdCA              *stdx509.Certificate
 	StdCAKey           *ecdsa.PrivateKey
@@ -158,6 +165,13 @@ func Get() *PKI {
 			cliT(t)
 			t.KeyUsage = gx509.KeyUsageKeyEncipherment | gx509.KeyUsageDataEncipherment
 		}), p.ClientKey)
+		{
+			subKey, leafKey := al[12].Lib(), al[13].Lib()
+			subDER := sm2Cert("verif Sub CA", 3, &subKey.PublicKey, p.CA, p.CAKey, func(t *gx509.Certificate) { caT(t); t.SubjectKeyId = []byte{3} })
+			p.SubCA = mustParse(subDER)
+			p.ClientSub = mk(sm2Cert("client under sub CA", 35, &leafKey.PublicKey, p.SubCA, subKey, cliT), leafKey)
+			p.ClientSub.Certificate = append(p.ClientSub.Certificate, subDER)
+		}
 		p.ClientUntrusted = mk(sm2Cert("client", 31, &p.ClientKey.PublicKey, p.CA2, p.CA2Key, cliT), p.ClientKey)
 		p.ClientExpired = mk(sm2Cert("client", 32, &p.ClientKey.PublicKey, p.CA, p.CAKey, func(t *gx509.Certificate) {
 			cliT(t)
@@ -194,6 +208,37 @@ func Get() *PKI {
 		ck, _ := ecdsa.GenerateKey(elliptic.P256(), rand.Reader)
 		p.StdClient = mk(leaf(103, &ck.PublicKey, []stdx509.ExtKeyUsage{stdx509.ExtKeyUsageClientAuth}, stdx509.KeyUsageDigitalSignature), ck)
 		p.RSAGM = p.RSA
+		{
+			subKey, _ := ecdsa.GenerateKey(elliptic.P256(), rand.Reader)
+			st := &stdx509.Certificate{SerialNumber: big.NewInt(110), Subject: pkix.Name{CommonName: "std Sub CA"}, NotBefore: time.Date(2020, 1, 1, 0, 0, 0, 0, time.UTC), NotAfter: time.Date(2030, 1, 1, 0, 0, 0, 0, time.UTC),
+				IsCA: true, BasicConstraintsValid: true, KeyUsage: stdx509.KeyUsageCertSign}
+			subDER, err := stdx509.CreateCertificate(rand.Reader, st, p.StdCA, &subKey.PublicKey, p.StdCAKey)
+			if err != nil {
+				panic(err)
+			}
+			sub, _ := stdx509.ParseCertificate(subDER)
+			p.StdSubCA = mustParse(subDER)
+			lk, _ := ecdsa.GenerateKey(elliptic.P256(), rand.Reader)
+			lt := &stdx509.Certificate{SerialNumber: big.NewInt(111), Subject: pkix.Name{CommonName: "std client under sub CA"}, NotBefore: time.Date(2020, 1, 1, 0, 0, 0, 0, time.UTC), NotAfter: time.Date(2030, 1, 1, 0, 0, 0, 0, time.UTC),
+				KeyUsage: stdx509.KeyUsageDigitalSignature, ExtKeyUsage: []stdx509.ExtKeyUsage{stdx509.ExtKeyUsageClientAuth}}
+			lder, err := stdx509.CreateCertificate(rand.Reader, lt, sub, &lk.PublicKey, subKey)
+			if err != nil {
+				panic(err)
+			}
+			p.StdClientSub = mk(lder, lk)
+			p.StdClientSub.Certificate = append(p.StdClientSub.Certificate, subDER)
+			rk, _ := rsa.GenerateKey(rand.Reader, 2048)
+			p.StdClientRSA = mk(leaf(112, &rk.PublicKey, []stdx509.ExtKeyUsage{stdx509.ExtKeyUsageClientAuth}, stdx509.KeyUsageDigitalSignature), rk)
+		}
+		{
+			t := &stdx509.Certificate{SerialNumber: big.NewInt(104), Subject: pkix.Name{CommonName: "std leaf ip"}, NotBefore: time.Date(2020, 1, 1, 0, 0, 0, 0, time.UTC), NotAfter: time.Date(2030, 1, 1, 0, 0, 0, 0, time.UTC),
+				DNSNames: []string{ServerName}, IPAddresses: []net.IP{net.ParseIP("127.0.0.1"), net.ParseIP("::1")}, KeyUsage: stdx509.KeyUsageDigitalSignature, ExtKeyUsage: []stdx509.ExtKeyUsage{stdx509.ExtKeyUsageServerAuth}}
+			der, err := stdx509.CreateCertificate(rand.Reader, t, p.StdCA, &p.ECDSAKey.PublicKey, p.StdCAKey)
+			if err != nil {
+				panic(err)
+			}
+			p.ECDSAIP = mk(der, p.ECDSAKey)
+		}
 		ca2Key, _ := ecdsa.GenerateKey(elliptic.P256(), rand.Reader)
 		ca2Tmpl := &stdx509.Certificate{SerialNumber: big.NewInt(200), Subject: pkix.Name{CommonName: "std CA 2"}, NotBefore: time.Date(2020, 1, 1, 0, 0, 0, 0, time.UTC), NotAfter: time.Date(2030, 1, 1, 0, 0, 0, 0, time.UTC),
 			IsCA: true, BasicConstraintsValid: true, KeyUsage: stdx509.KeyUsageCertSign}
